@@ -116,18 +116,23 @@ func registerHarnessAPI(e *Engine) {
 			return mkStr(tpl.Text)
 		}
 		for _, h := range tpl.Holes {
+			hk := holeKey(m.job, name, h.Name, h.Class)
 			switch h.Class {
 			case "B":
-				m.recordInput(name+"."+h.Name, mkBool(TVar(name+"."+h.Name, SBool)))
+				m.recordInput(hk, mkBool(TVar(hk, SBool)))
 			default:
-				t := TVar(name+"."+h.Name, SStr)
+				t := TVar(hk, SStr)
 				if h.Class == "G" || h.Class == "GS" {
 					m.freshAtoms[t] = true
 				}
-				if pv, ok := preferredValue(h.Class, h.Name); ok {
+				pn := h.Name
+				if name != "L0" && hk != "L0."+h.Name {
+					pn = h.Name + strings.ToLower(name)
+				}
+				if pv, ok := preferredValue(h.Class, pn); ok {
 					m.prefs[t] = pv
 				}
-				m.recordInput(name+"."+h.Name, mkStrT(t))
+				m.recordInput(hk, mkStrT(t))
 			}
 		}
 		return mkStrT(TVar("line!"+name, SStr))
@@ -139,7 +144,7 @@ func registerHarnessAPI(e *Engine) {
 		var out []Str
 		for _, h := range tpl.Holes {
 			if h.Class == class {
-				out = append(out, mkStrT(TVar(name+"."+h.Name, SStr)))
+				out = append(out, mkStrT(TVar(holeKey(m.job, name, h.Name, h.Class), SStr)))
 			}
 		}
 		return mkStrSlice(out)
@@ -150,10 +155,36 @@ func registerHarnessAPI(e *Engine) {
 		var arr []Value
 		for _, h := range tpl.Holes {
 			if h.Class == "B" {
-				arr = append(arr, mkBool(TVar(name+"."+h.Name, SBool)))
+				arr = append(arr, mkBool(TVar(holeKey(m.job, name, h.Name, "B"), SBool)))
 			}
 		}
 		return Slice{arr: &arr, len: len(arr), cap: len(arr)}
+	}
+	in[P+"verifHolePaths"] = func(m *Machine, fr *frame, a []Value) Value {
+		tpl := m.job.Lines[constArg(a[0], "verifHolePaths")]
+		kind := constArg(a[1], "verifHolePaths")
+		var out []Str
+		if tpl != nil {
+			for _, hp := range tpl.HolePositions() {
+				if hp.IsKey == (kind == "key") {
+					out = append(out, mkStr(hp.Path))
+				}
+			}
+		}
+		return mkStrSlice(out)
+	}
+	in[P+"verifHoleClasses"] = func(m *Machine, fr *frame, a []Value) Value {
+		tpl := m.job.Lines[constArg(a[0], "verifHoleClasses")]
+		kind := constArg(a[1], "verifHoleClasses")
+		var out []Str
+		if tpl != nil {
+			for _, hp := range tpl.HolePositions() {
+				if hp.IsKey == (kind == "key") {
+					out = append(out, mkStr(hp.Class))
+				}
+			}
+		}
+		return mkStrSlice(out)
 	}
 	in[P+"verifLeaks"] = func(m *Machine, fr *frame, a []Value) Value {
 		return mkBool(m.leaks(argStr(a[0]), argStr(a[1])))
